@@ -6,7 +6,7 @@ Leg M  Api.tla (typed term algebra over spec/ApiTable.tla): TLC enumerates every
 Leg R/T every generated program is executed on the real library (seeded base objects, writable float arrays passed deliberately);
        after every call all arguments are fingerprinted bit-wise; ApiTrace.tla re-plays the program and accepts iff the map
        content term -> fingerprint is a function at every step (not_modified, hidden_state, deterministic) and the logged
-       predicates forms_agree (rtol 1e-12, row 0 of stacked forms), schema, no_exception hold.
+       predicates forms_agree (rtol 1e-12, row 0 of stacked forms; a form that raises while the canonical form is accepted), schema hold.
 The table is checked against introspection of the ten modules: a public callable missing from the table is reported as uncovered.
 """
 import json, os, shutil, tempfile
@@ -134,6 +134,9 @@ def check(rep, pid, tier, seed):
         rep.nontrivial.add(json.dumps([[s["f"], s["forms"], s["args"]] for s in rec["steps"]]))
         for s in rec["steps"]:
             callables_hit.add(s["name"])
+            if s["exc"]:
+                rep.extra.setdefault("calls_that_raised", {}).setdefault(s["name"], 0)
+                rep.extra["calls_that_raised"][s["name"]] += 1
         bad = verdicts.get(rec["tid"])
         if bad is None:
             rep.machinery("program %d got no verdict from ApiTrace" % rec["tid"])
